@@ -62,7 +62,7 @@ def main():
                     pass
         confirmed = res["tests_pass"] and res["demo_fails_with_change"] and res["demo_passes_without_change"]
         res["confirmed"] = confirmed
-        if confirmed:
+        if confirmed and not os.environ.get("SEED_NOSTORE"):
             dst = os.path.join(VERIF, "seeded", tag)
             os.makedirs(dst, exist_ok=True)
             for f in os.listdir(sd):
